@@ -377,6 +377,52 @@ Case gen_case(const std::string &profile, uint64_t seed, const GenOpts &go) {
         c.ops.push_back(op);
         return c;
     }
+    if (profile == "tiny") {
+        // enumerating profile: configuration (seed div S) = every 0/1 pattern with n <= 3 (quick) / n <= 4 (thorough); the items of a
+        // configuration (seed mod S) aim the values at every pivot order in turn: the entry in row pi(j) of column j dominates column j
+        int nmax = go.tier ? 4 : 3;
+        uint64_t total = 0; for (int n = 1; n <= nmax; ++n) total += 1ULL << (n * n);
+        uint64_t cfg = (seed / (uint64_t)go.S) % total; int n = 1;
+        while (cfg >= (1ULL << (n * n))) { cfg -= 1ULL << (n * n); ++n; }
+        uint64_t bits = cfg; int item = (int)(seed % (uint64_t)go.S);
+        c.prec = go.force_prec >= 0 ? go.force_prec : (int)rc.below(4);
+        bool cpx = prec_is_complex(c.prec);
+        Pattern Pt; Pt.n = n; Pt.col.assign(n, {}); Pt.transversal.assign(n, -1);
+        for (int j = 0; j < n; ++j) for (int i = 0; i < n; ++i) if ((bits >> (j * n + i)) & 1) Pt.col[j].insert(i);
+        c.M = pattern_to_mat(Pt); c.family = "tiny_n" + std::to_string(n); c.tags["tiny_bits"] = (long)bits;
+        // item -> permutation pi (items beyond n! use seeded values without a dominating entry)
+        std::vector<int> pi(n); for (int i = 0; i < n; ++i) pi[i] = i;
+        int nfact = 1; for (int i = 2; i <= n; ++i) nfact *= i;
+        bool forced = item < nfact;
+        if (forced) { int k = item; std::vector<int> pool = pi; for (int j = 0; j < n; ++j) { int f = 1; for (int i = 2; i < n - j; ++i) f *= i; int q = k / f; k %= f; pi[j] = pool[q]; pool.erase(pool.begin() + q); } }
+        Rng rv(sim::derive(seed, 0x71f));
+        std::vector<cld> v(c.M.rowind.size());
+        for (int j = 0; j < n; ++j) for (int k = c.M.colptr[j]; k < c.M.colptr[j + 1]; ++k) {
+            int i = c.M.rowind[k];
+            ld mag = (ld)(0.25 + 0.75 * rv.unit());
+            if (forced && i == pi[j]) mag *= 16.0L;
+            cld x = cpx ? std::polar(mag, (ld)(rv.unit() * 6.283185307179586L)) : cld(rv.chance(0.5) ? mag : -mag, 0);
+            v[k] = round_prec(x, c.prec);
+        }
+        c.values.push_back(v); c.M.val = v; c.valclass = forced ? "forced_pivot_order" : "uniform";
+        c.transversal = Pt.transversal;
+        c.stype_nr = (int)rv.below(2); c.nrhs = 1; c.ldb = n;
+        std::vector<cld> b((size_t)n); for (auto &x : b) x = round_prec(cld((ld)(rv.unit() * 2 - 1), cpx ? (ld)(rv.unit() * 2 - 1) : 0), c.prec);
+        c.rhs.push_back(b);
+        c.colperm = (int)rv.below(4);
+        OpSpec op;
+        gen_tunables(rv, op.ienv, n);
+        op.ienv[1] = rv.range(1, 3); op.ienv[2] = rv.range(1, 3); op.ienv[3] = std::max<long>(op.ienv[2], rv.range(1, 4));
+        op.dyn_snode = rv.chance(0.1); op.x.nprocs = (int)rv.range(1, 3);
+        op.x.panel_size = (int)op.ienv[1]; op.x.relax = (int)op.ienv[2];
+        int e = (int)rv.below(10);
+        op.kind = e < 5 ? OP_ROUTE : e < 8 ? OP_GSSV : OP_GSSVX;
+        op.x.u = op.kind == OP_ROUTE && rv.chance(0.3) ? rv.unit() : 1.0;
+        op.x.fact = 0; op.x.trans = op.kind == OP_GSSVX ? (int)rv.below(3) : 0;
+        gen_sched(rs, op.sched, op.x.nprocs, item == 0, "ssv");
+        c.ops.push_back(op);
+        return c;
+    }
     if (profile == "forest") {
         // enumerating profile: configuration (seed div S) walks through every postordered elimination forest with 1..nmax columns
         // x panel size 1..3 x relaxation 1..3 x 2..3 threads; the matrix has exactly that column elimination tree
